@@ -15,6 +15,10 @@ MODEL_TARGETS = ["Corr/ReadShow.vo"]
 THEOREMS = ["C05_cut", "C05_bodies", "C05_type_data", "C05_type_other", "C05_type_header", "C05_steering_only_V_W", "C05_steering_W_only_null", "C05_steering_V_not_null", "C05_route_custom_frame",
             "C05_section_type_current", "C05_route_current", "C05_steering_current"]
 ASSUMPTIONS = [
+    "planted steering items: VERS/WRAP/DLM in ~W, ~C (bound to a data column), ~P and custom sections, NULL in ~V, ~C, ~P and custom "
+    "sections, with values that would change the parse if honoured (WRAP YES with an undeclared surplus column, DLM COMMA/TAB on "
+    "blank-separated data, VERS 1.2/3.0, NULL equal to a data value); the oracle compares every section and every cell with the "
+    "intended content, in which only ~Version's VERS/WRAP/DLM and ~Well's NULL steer",
     "LAS 1.2/2.0 titles only (LAS 3.0 *_Data/_Definition/_Parameter section handling is outside the model)",
     "str.upper/lower modelled for ASCII; generated mnemonics and titles are ASCII",
 ]
@@ -31,6 +35,62 @@ CUSTOM_TITLES = ["~Tops", "~Remarks info", "~ztest", "~Inclinometry", "~T", "~x 
 STEER = [("VERS", "", "1.2", "planted"), ("WRAP", "", "YES", "planted"), ("NULL", "", "5", "planted"),
          ("DLM", "", "COMMA", "planted"), ("VERS", "", "3.0", "planted"), ("DLM", "", "TAB", "planted"),
          ("NULL", "", "2", "planted"), ("WRAP", "", "NO", "planted")]
+
+
+# Title spellings with an underscore (audit A3).  lasio filed ~Curve_Information / ~Parameter_Info of a 1.2/2.0 file as custom
+# sections (its router tests "_" to recognise LAS 3.0 ~X_Data / ~X_Definition titles): a genuine defect, being repaired in lasio
+# together with Model/Read.v route.  The class (1.2/2.0 files only) is switched on when that fix is committed; it is counted under
+# histogram class "underscore_titles" and a disagreement on such a file carries the message prefix "underscore title".  The plain
+# expectation applies: such a title introduces the Version / Well / Curves / Parameter section.
+UNDERSCORE_TITLES = False
+US_TITLES = {
+    "V": ["~Version_Info", "~VERSION_INFORMATION"],
+    "W": ["~Well_Info", "~WELL_INFORMATION"],
+    "C": ["~Curve_Information", "~CURVE_INFORMATION", "~curve_info"],
+    "P": ["~Parameter_Info", "~PARAMETER_INFORMATION", "~param_info"],
+}
+
+
+def data_token(s, rng):
+    """a token standing in a non-index column (a NULL item equal to it would null that cell if it were honoured)"""
+    cells = [row[j] for row in s.rows for j in range(1, len(row))]
+    return rng.choice(cells) if cells else "5"
+
+
+def plant(s, rng, tgt):
+    """plant one steering-named item in section tgt; -> the item"""
+    tok = data_token(s, rng)
+    null_items = [("NULL", "", tok, "planted"), ("NULL", "", tok, "planted"), ("NULL", "", "5", "planted"),
+                  ("null", "", tok, "planted")]
+    vwd_items = [("VERS", "", "1.2", "planted"), ("WRAP", "", "YES", "planted"), ("DLM", "", "COMMA", "planted"),
+                 ("VERS", "", "3.0", "planted"), ("DLM", "", "TAB", "planted"), ("WRAP", "", "YES", "planted"),
+                 ("wrap", "", "YES", "planted"), ("DLM", "", "COMMA", "planted")]
+    if tgt == "V":
+        it = rng.choice(null_items)                    # VERS/WRAP/DLM in ~V are the real steering items
+        s.v_extra = getattr(s, "v_extra", []) + [(rng.randint(0, 3), it)]
+        s.v_extra.sort(key=lambda x: x[0])
+        s.extra_lines = dict(s.extra_lines)
+        s.extra_lines["V"] = [(p, lasgen.fmt_item(*i)) for p, i in s.v_extra]
+        if rng.random() < 0.5:
+            s.null = None                              # no ~Well NULL item that would override a NULL honoured from ~V
+    elif tgt == "W":
+        it = rng.choice(vwd_items)                     # NULL in ~W is the real steering item
+        if s.version == "1.2":
+            it = (it[0], it[1], it[3], it[2])          # 1.2 ~Well lines carry the value after the colon
+        s.well = list(s.well)
+        s.well.insert(rng.randint(0, len(s.well)), it)
+    elif tgt == "C":
+        it = rng.choice(null_items + vwd_items)
+        s.curves = s.curves + [it]                     # a curve of that name, bound to a column of its own
+        s.rows = [row + [lasgen.num_token(rng)] for row in s.rows]
+    elif tgt == "P":
+        it = rng.choice(null_items + vwd_items)
+        s.params = s.params + [it]
+    else:
+        it = rng.choice(null_items + vwd_items)
+        t, items = s.custom[tgt[1]]
+        s.custom[tgt[1]] = (t, items + [it])
+    return it
 
 
 def gen_spec(rng, thorough):
@@ -60,18 +120,19 @@ def gen_spec(rng, thorough):
     s.final_newline = rng.random() < 0.8
     # keep NULL out of the data so that the data oracle is plain
     planted = []
-    if rng.random() < 0.6:
-        # steering names planted in ~C (as extra curve w/o data is wrong) -> only ~P and custom sections
-        targets = ["P"] + [("X", i) for i in range(ncust)]
-        for _ in range(rng.randint(1, 2)):
+    if rng.random() < 0.7:
+        targets = ["P", "C", "C", "V", "W", "W"] + [("X", i) for i in range(ncust)]
+        for _ in range(rng.randint(1, 3)):
             tgt = rng.choice(targets)
-            it = rng.choice(STEER)
-            planted.append((tgt, it))
-            if tgt == "P":
-                s.params = s.params + [it]
-            else:
-                t, items = s.custom[tgt[1]]
-                s.custom[tgt[1]] = (t, items + [it])
+            planted.append((tgt, plant(s, rng, tgt)))
+        if any(it[0].upper() == "WRAP" for _, it in planted) and rng.random() < 0.6:
+            # a surplus (undeclared) column: a WRAP YES that is honoured re-shapes the data to the declared count
+            s.rows = [row + [lasgen.num_token(rng)] for row in s.rows]
+    s._underscore = []
+    if UNDERSCORE_TITLES and rng.random() < 0.2:
+        for k in rng.sample("VWCP", rng.choice([1, 1, 2])):
+            s.titles[k] = rng.choice(US_TITLES[k])
+            s._underscore.append(k)
     return s, planted
 
 
@@ -106,6 +167,22 @@ def items_equal(got, exp):
 
 
 def oracle(spec, text, engine="numpy"):
+    bad = oracle_(spec, text, engine)
+    if bad and any("_" in spec.titles[k] for k in "VWCP"):
+        return "underscore title: %r: %s" % ([spec.titles[k] for k in "VWCP" if "_" in spec.titles[k]], bad)
+    return bad
+
+
+def version_items(spec):
+    out = [("VERS", "", spec.version, "CWLS LOG ASCII STANDARD"), ("WRAP", "", spec.wrap, "wrap mode")]
+    if spec.dlm:
+        out.append(("DLM", "", spec.dlm, "delimiter"))
+    for pos, it in reversed(sorted(getattr(spec, "v_extra", []), key=lambda x: x[0])):
+        out.insert(min(pos, len(out)), tuple(it))
+    return out
+
+
+def oracle_(spec, text, engine="numpy"):
     """None if the read result is exactly the spec, else a description."""
     import lasio
     try:
@@ -113,11 +190,9 @@ def oracle(spec, text, engine="numpy"):
     except Exception as e:
         return "read raised %s: %s" % (type(e).__name__, str(e)[-120:])
     ver = spec.version
-    exp_v = [("VERS", "", spec.version, "CWLS LOG ASCII STANDARD"), ("WRAP", "", spec.wrap, "wrap mode")]
-    if spec.dlm:
-        exp_v.append(("DLM", "", spec.dlm, "delimiter"))
+    exp_v = version_items(spec)
     if not items_equal([got_item(i) for i in las.version], [expect_item("V", ver, i) for i in exp_v]):
-        return "~Version items differ: %r" % ([got_item(i) for i in las.version],)
+        return "~Version items differ: got %r expected %r" % ([got_item(i) for i in las.version], [expect_item("V", ver, i) for i in exp_v])
     w = list(spec.well)
     if spec.null is not None:
         w = [("NULL", "", spec.null, "NULL VALUE")] + w
@@ -180,7 +255,10 @@ def run(ctx):
     cases = []
     meta = []
     orders = set()
-    hist = {"eol_crlf": 0, "no_final_newline": 0, "planted_steering": 0, "a_not_last": 0, "custom_sections": 0, "lowercase_titles": 0}
+    hist = {"eol_crlf": 0, "no_final_newline": 0, "planted_steering": 0, "a_not_last": 0, "custom_sections": 0, "lowercase_titles": 0,
+            "planted_in_C": 0, "planted_in_W": 0, "planted_null_in_V": 0, "planted_in_P_or_custom": 0,
+            "planted_null_equal_to_a_data_value": 0, "planted_wrap_yes_with_surplus_column": 0, "no_well_null_item": 0,
+            "underscore_titles": 0}
     specs = []
     for _ in range(n):
         specs.append(gen_spec(rng, ctx.thorough))
@@ -205,6 +283,15 @@ def run(ctx):
         hist["eol_crlf"] += s.eol == "\r\n"
         hist["no_final_newline"] += not s.final_newline
         hist["planted_steering"] += bool(planted)
+        hist["planted_in_C"] += any(t == "C" for t, _ in planted)
+        hist["planted_in_W"] += any(t == "W" for t, _ in planted)
+        hist["planted_null_in_V"] += any(t == "V" for t, _ in planted)
+        hist["planted_in_P_or_custom"] += any(t == "P" or isinstance(t, tuple) for t, _ in planted)
+        cells = {row[j] for row in s.rows for j in range(1, len(row))}
+        hist["planted_null_equal_to_a_data_value"] += any(it[0].upper() == "NULL" and it[2] in cells for _, it in planted)
+        hist["planted_wrap_yes_with_surplus_column"] += bool(planted) and bool(s.rows) and len(s.rows[0]) > len(s.curves)
+        hist["no_well_null_item"] += s.null is None
+        hist["underscore_titles"] += bool(getattr(s, "_underscore", []))
         hist["a_not_last"] += s.a_pos is not None and s.a_pos < len(s.order) - 1
         hist["custom_sections"] += len(s.custom)
         hist["lowercase_titles"] += sum(1 for k in "VWCPOA" if s.titles[k][1].islower())
@@ -219,7 +306,8 @@ def run(ctx):
     res.distinct_nontrivial = len(orders)
     res.rule = ("LAS 1.2/2.0 files with ~W/~C/~P/~O and 0-2 custom header sections in random order (plus all 120 permutations of "
                 "{W,C,P,O,custom} with ~A at every position after ~C), title spellings from the documented table in both cases, "
-                "bodies of 0..n items, steering names VERS/WRAP/NULL/DLM planted in ~P and custom sections, LF/CRLF, with/without "
+                "bodies of 0..n items, steering names planted (VERS/WRAP/DLM in ~W, ~C, ~P, custom; NULL in ~V, ~C, ~P, custom; ~C items "
+                "bound to a data column; values WRAP YES (+ surplus column), DLM COMMA/TAB, VERS 1.2/3.0, NULL = a data value), LF/CRLF, with/without "
                 "final newline; non-trivial = distinct (section order, ~A position, title spelling tuple)")
     res.samples = [meta[0][:400], meta[len(meta) // 2][:400]]
     res.histogram = hist
@@ -227,8 +315,10 @@ def run(ctx):
 
 
 def spec_payload(s):
-    return {k: getattr(s, k) for k in ("version", "wrap", "dlm", "null", "well", "curves", "params", "other", "custom", "rows",
-                                        "order", "a_pos", "titles", "eol", "final_newline")}
+    d = {k: getattr(s, k) for k in ("version", "wrap", "dlm", "null", "well", "curves", "params", "other", "custom", "rows",
+                                     "order", "a_pos", "titles", "eol", "final_newline")}
+    d["v_extra"] = [[p, list(it)] for p, it in getattr(s, "v_extra", [])]
+    return d
 
 
 def spec_from_payload(p):
@@ -240,6 +330,7 @@ def spec_from_payload(p):
     s.params = [tuple(x) for x in s.params]
     s.custom = [(t, [tuple(x) for x in items]) for t, items in s.custom]
     s.order = [tuple(k) if isinstance(k, list) else k for k in s.order]
+    s.v_extra = [(p, tuple(it)) for p, it in getattr(s, "v_extra", [])]
     return s
 
 
